@@ -471,7 +471,9 @@ QUOTA_FILES = {
                       "  - id: q1\n    filter:\n      url: h.test/x\n    strategy:\n      concurrent:\n        max_request_count: 4\n", None),
     "empty-file": ("", None),
     "garbage-yaml": ("quotas: [unclosed\n  - id: {\n", None),
-    "null-entries": ("quotas:\n  -\n  - id: q1\n    filter:\n      url: h.test/x\n    strategy:\n      concurrent:\n        max_request_count: 3\ninternal_limits:\n  -\n", None),
+    "null-quota-entry": ("quotas:\n  -\n  - id: q1\n    filter:\n      url: h.test/x\n    strategy:\n      concurrent:\n        max_request_count: 3\n", None),
+    "null-internal-entry": ("quotas:\n  - id: q1\n    filter:\n      url: h.test/x\n    strategy:\n      concurrent:\n        max_request_count: 3\ninternal_limits:\n  -\n", None),
+    "null-filter-and-strategy": ("quotas:\n  - id: q1\n    filter:\n    strategy:\n", None),
     "header-based": ("quotas:\n  - id: q1\n    filter:\n      url: h.test/x\n    strategy:\n      header_based:\n        quota_header: x-remaining\n        reset_header: x-reset\n", None),
     "same-host-two-files": ("quotas:\n  - id: q1\n    filter:\n      url: h.test/x\n    strategy:\n      concurrent:\n        max_request_count: 3\n",
                             "quotas:\n  - id: q2\n    filter:\n      url: h.test/y\n    strategy:\n      concurrent:\n        max_request_count: 3\n"),
